@@ -2,539 +2,1281 @@ package main
 
 import (
 	"fmt"
+	"go/constant"
 	"go/token"
 	"go/types"
+	"sort"
+	"strings"
 
 	"golang.org/x/tools/go/ssa"
 )
 
 // C06 — queue.Processor.
+//
+// The rules are stated over EVENTS of the mechanism (operations on the
+// component lock, on the role-resolved channels, queue operations, wait-group
+// operations, the callback) as they occur along the paths of the exported
+// entry points and of the loop goroutine, with every same-package callee
+// inlined (evx.go). Unexported names are not used as anchors: the constructs
+// are resolved by ROLE from the exported type queue.Processor, its exported
+// methods, field types and the standard-library functions they use.
 
 func init() { register("C06", checkC06) }
 
 // c06Prefix lets other properties (C10) run the queue rules under their own rule ids.
 var c06Prefix = "C06."
 
+// c06Roles: the constructs of events/queue resolved by role.
+type c06Roles struct {
+	p       *Prog
+	rel     string
+	pkg     string
+	procT   string // pkgpath.Processor
+	lockID  string
+	wgID    string
+	queue   FieldID
+	queueT  string
+	tokenCh string // chanIdent of the running-token channel
+	stopCh  string
+	resetCh string
+	stopped FieldID
+	execFn  FieldID
+	ops     map[*ssa.Function]string // queue methods: peek | pop | insert | remove | update
+	enq     *ssa.Function
+	deq     *ssa.Function
+	closeFn *ssa.Function
+	t       *evFrames
+	loops   []*evFrame // goroutine bodies that run the loop
+	names   map[string]string
+}
+
+var c06RolesCache = map[*Prog]*c06Roles{}
+
+func evFieldName(id string) string {
+	if i := strings.LastIndex(id, "."); i >= 0 {
+		return id[i+1:]
+	}
+	return id
+}
+
+func c06Resolve(c *Ctx) *c06Roles {
+	if v, ok := c06RolesCache[c.P]; ok {
+		return v
+	}
+	p := c.P
+	ro := &c06Roles{p: p, rel: "events/queue", ops: map[*ssa.Function]string{}}
+	ro.pkg = p.ModPath + "/" + ro.rel
+	named := p.Named(ro.rel, "Processor")
+	ro.procT = ro.pkg + ".Processor"
+	st := structOf(named)
+	if st == nil {
+		undecided("queue.Processor is not a struct")
+	}
+	var chans []string
+	one := func(cur *string, name, what string) {
+		if *cur != "" {
+			undecided("queue.Processor has more than one %s field (%s, %s): role not resolvable", what, evFieldName(*cur), name)
+		}
+		*cur = name
+	}
+	var lock, wg, stopped, execFn, queueF string
+	for i := 0; i < st.NumFields(); i++ {
+		f := st.Field(i)
+		switch nk := namedKey(f.Type()); {
+		case nk == "sync.Mutex" || nk == "sync.RWMutex":
+			one(&lock, f.Name(), "mutex")
+		case nk == "sync.WaitGroup":
+			one(&wg, f.Name(), "WaitGroup")
+		case nk == "sync/atomic.Bool":
+			one(&stopped, f.Name(), "atomic.Bool")
+		case strings.HasPrefix(nk, ro.pkg+"."):
+			if _, isPtr := f.Type().Underlying().(*types.Pointer); !isPtr || true {
+				if structOf(f.Type()) != nil {
+					one(&queueF, f.Name(), "queue")
+					ro.queueT = nk
+				}
+			}
+		default:
+			switch f.Type().Underlying().(type) {
+			case *types.Chan:
+				chans = append(chans, f.Name())
+			case *types.Signature:
+				one(&execFn, f.Name(), "callback")
+			}
+		}
+	}
+	for what, v := range map[string]string{"mutex": lock, "WaitGroup": wg, "atomic.Bool flag": stopped, "callback": execFn, "queue": queueF} {
+		if v == "" {
+			undecided("queue.Processor has no %s field: role not resolvable", what)
+		}
+	}
+	ro.lockID = ro.procT + "." + lock
+	ro.wgID = ro.procT + "." + wg
+	ro.stopped = FieldID{ro.procT, stopped}
+	ro.execFn = FieldID{ro.procT, execFn}
+	ro.queue = FieldID{ro.procT, queueF}
+	ro.enq = p.Func(ro.rel, "Processor.Enqueue")
+	ro.deq = p.Func(ro.rel, "Processor.Dequeue")
+	ro.closeFn = p.Func(ro.rel, "Processor.Close")
+
+	// queue operations by what they do to the container/heap
+	heapCall := func(name string) func(ssa.CallInstruction) bool {
+		return func(ci ssa.CallInstruction) bool { return callIs(ci, "container/heap", "", name) }
+	}
+	for _, fn := range p.FuncsOfPkg(ro.rel) {
+		if fn.Signature.Recv() == nil || namedKey(fn.Signature.Recv().Type()) != ro.queueT {
+			continue
+		}
+		push, pop, rem, fix := evReachesCall(p, fn, heapCall("Push")), evReachesCall(p, fn, heapCall("Pop")), evReachesCall(p, fn, heapCall("Remove")), evReachesCall(p, fn, heapCall("Fix"))
+		res := fn.Signature.Results()
+		switch {
+		case push && !pop && !rem:
+			ro.ops[fn] = "insert"
+		case pop && !push && !rem:
+			ro.ops[fn] = "pop"
+		case rem && !push && !pop:
+			ro.ops[fn] = "remove"
+		case fix:
+			ro.ops[fn] = "update"
+		case res.Len() == 2 && evIsBool(res.At(1).Type()) && fn.Signature.Params().Len() == 0:
+			ro.ops[fn] = "peek"
+		}
+	}
+	cnt := map[string]int{}
+	for _, k := range ro.ops {
+		cnt[k]++
+	}
+	for _, k := range []string{"peek", "pop", "insert"} {
+		if cnt[k] != 1 {
+			undecided("the %s operation of the queue type %s is not resolvable by role (%d candidates)", k, shortID(ro.queueT), cnt[k])
+		}
+	}
+
+	// channels: stop = the one that is closed; token = the one Close sends on; reset = the remaining one
+	chField := func(v ssa.Value) string {
+		id := chanIdent(v)
+		pre := "field:" + ro.procT + "."
+		if strings.HasPrefix(id, pre) {
+			return id
+		}
+		return ""
+	}
+	closed, sentInClose := map[string]bool{}, map[string]bool{}
+	for _, fn := range p.FuncsOfPkg(ro.rel) {
+		for _, cl := range closeSites(fn) {
+			if ci, ok := cl.Instr.(ssa.CallInstruction); ok {
+				if id := chField(ci.Common().Args[0]); id != "" {
+					closed[id] = true
+				}
+			}
+		}
+	}
+	for _, fn := range evCalleeClosure(p, ro.closeFn) {
+		if fn.Pkg == nil || fn.Pkg.Pkg.Path() != ro.pkg {
+			continue
+		}
+		allInstrs(fn, func(in ssa.Instruction) {
+			switch x := in.(type) {
+			case *ssa.Send:
+				if id := chField(x.Chan); id != "" {
+					sentInClose[id] = true
+				}
+			case *ssa.Select:
+				for _, s := range x.States {
+					if s.Dir == types.SendOnly {
+						if id := chField(s.Chan); id != "" {
+							sentInClose[id] = true
+						}
+					}
+				}
+			}
+		})
+	}
+	for _, name := range chans {
+		id := "field:" + ro.procT + "." + name
+		switch {
+		case closed[id] && !sentInClose[id]:
+			one(&ro.stopCh, id, "closed (stop) channel")
+		case sentInClose[id] && !closed[id]:
+			one(&ro.tokenCh, id, "running-token channel (the one Close takes)")
+		default:
+			one(&ro.resetCh, id, "reset-signal channel")
+		}
+	}
+	if ro.stopCh == "" || ro.tokenCh == "" || ro.resetCh == "" {
+		undecided("the stop / running-token / reset channels of queue.Processor are not resolvable by role (stop=%q token=%q reset=%q)", ro.stopCh, ro.tokenCh, ro.resetCh)
+	}
+	ro.t = newEvFrames(p, func(fn *ssa.Function) bool {
+		if fn.Pkg == nil || fn.Pkg.Pkg.Path() != ro.pkg {
+			return false
+		}
+		if fn.Signature.Recv() != nil && namedKey(fn.Signature.Recv().Type()) == ro.queueT {
+			return false
+		}
+		return true
+	})
+	c06RolesCache[p] = ro
+	return ro
+}
+
+func (ro *c06Roles) op(ci ssa.CallInstruction) string {
+	if ci.Common().IsInvoke() {
+		return ""
+	}
+	if f := staticCallee(ci); f != nil {
+		return ro.ops[f]
+	}
+	return ""
+}
+
+func (ro *c06Roles) isPeek(ci ssa.CallInstruction) bool { return ro.op(ci) == "peek" }
+
+// isCallback: the dynamic call is the call of the Processor's callback field.
+func (ro *c06Roles) isCallback(d evDynCall) bool {
+	id, _, ok := fieldOfValue(d.Val.V)
+	return ok && id == ro.execFn
+}
+
+// evAbsent reports that something the property needs never happens on any path
+// of an exploration: a VIOLATION when every call was followed, UNDECIDED when
+// function values with unknown targets were called on the way.
+func evAbsent(r *Report, unknown, rule, construct, pos, msg string) {
+	if unknown != "" {
+		r.Undecide("%s: %s — but not every call could be followed (%s)", construct, msg, unknown)
+		return
+	}
+	r.Violation(rule, construct, pos, msg)
+}
+
+// evFlagOp: ci is an operation of the given name set on the atomic flag field.
+func evFlagOp(ci ssa.CallInstruction, flag FieldID) string {
+	obj := calleeObj(ci)
+	if obj == nil || obj.Pkg() == nil || obj.Pkg().Path() != "sync/atomic" || len(ci.Common().Args) == 0 {
+		return ""
+	}
+	if id, _, ok := fieldOfValue(ci.Common().Args[0]); !ok || id != flag {
+		return ""
+	}
+	return obj.Name()
+}
+
+// evFlagWon: the branch condition key (with truth value val on this edge)
+// decides that this caller is the one that flipped the flag from false to true.
+func evFlagWon(key evVal, val bool, flag FieldID) (won, isFlag bool) {
+	call, ok := key.V.(*ssa.Call)
+	if !ok {
+		return false, false
+	}
+	switch evFlagOp(call, flag) {
+	case "CompareAndSwap":
+		args := call.Call.Args
+		if len(args) == 3 && evConstBool(args[1]) == 0 && evConstBool(args[2]) == 1 {
+			return val, true
+		}
+	case "Swap":
+		args := call.Call.Args
+		if len(args) == 2 && evConstBool(args[1]) == 1 {
+			return !val, true
+		}
+	}
+	return false, false
+}
+
+// evConstBool: 1 true, 0 false, -1 not a boolean constant.
+func evConstBool(v ssa.Value) int {
+	k, ok := v.(*ssa.Const)
+	if !ok || k.Value == nil || k.Value.Kind() != constant.Bool {
+		return -1
+	}
+	if constant.BoolVal(k.Value) {
+		return 1
+	}
+	return 0
+}
+
 func checkC06(c *Ctx) {
 	r, p := c.R, c.P
-	r.Explanation = "Decides structural necessary conditions of C06 on events/queue: (Q1) Processor.queue is only used with Processor.lock held (process() runs under its callers' lock); (Q2) atomic exit: on every path of processLoop, between observing the queue empty under the lock and giving up the running token the lock is never released — otherwise an Enqueue in that window finds the loop 'still running' and its item is stranded — and every return gives the token up exactly once; (Q3) execute pops in the same critical section in which it re-checked that the head is still the peeked item, and the callback receives the popped value; (Q4) Close waits for the loop goroutine on every path and, on the path that wins the stopped CAS, closes stopCh and takes the running token; the loop goroutine is spawned only after taking the token, with wg.Add before go and a deferred Done; (Q5) an item is executed only on the 'due within K' branch with K <= 500µs of scheduledTime.Sub(clock.Now()) or after the timer armed with that same duration fired; (Q6) Enqueue inserts with replace=true and always calls process(); the head-changed signal is sent when the loop is already running; (Q7) the heap orders by ScheduledTime().Before(i,j). NOT decided: exactly-once / ordering over all histories, timer accuracy, that isFirst is computed correctly."
-	r.Assumptions = append(r.Assumptions, "type-based lock and channel identity", "container/heap implements a min-heap over Less")
-	r.Rule("C06.Q1-guard", "Processor.queue only under Processor.lock", 4)
-	r.Rule("C06.Q2-atomic-exit", "no unlock between 'queue empty' and release of the running token; token released exactly once per return", 2)
+	r.Explanation = "Decides structural necessary conditions of C06 on events/queue, over the events of the mechanism along every path of the exported entry points and of the loop goroutine with all same-package helpers inlined (constructs resolved by role, not by unexported name): (Q1) the queue field of Processor is only used with the Processor mutex held; (Q2) atomic exit: on every path of the loop goroutine, between observing the queue empty (Peek's ok result false) under the lock and giving up the running token the lock is never released — otherwise an Enqueue in that window finds the loop 'still running' and its item is stranded — and every exit gives the token up exactly once; (Q3) an item is popped only in the critical section in which the head was re-checked to be the very item the loop decided on (object identity), and the callback receives the popped value; (Q4) Close waits for the loop goroutine on every path and, on the path that wins the stopped flag, closes the stop channel and then takes the running token; the loop goroutine is started only on a path that took the token, after wg.Add, and calls wg.Done on every exit; (Q5) the item popped is one established due: on the branch 'ScheduledTime().Sub(clock.Now()) < K' with K <= 500µs, or after the timer armed with that same duration fired; (Q6) Enqueue inserts with replace=true and on every path attempts to take the token (start the loop) under the lock afterwards; when the token is not available a reset signal can be posted; (Q7) the heap orders by scheduled time ascending; (Q8) the token/reset channels have one slot, and a received reset leads to a fresh Peek before anything is armed, popped or executed; every wait on the item's timer also listens for the reset signal. NOT decided: exactly-once / ordering over all histories, timer accuracy, that the head-changed flag is computed correctly."
+	r.Assumptions = append(r.Assumptions, "type-based lock and channel identity", "container/heap implements a min-heap over Less", "helpers are followed through static calls, defer and go of functions of the same package; function values stored in variables are not followed")
+	r.Rule("C06.Q1-guard", "the Processor's queue only under the Processor's mutex", 3)
+	r.Rule("C06.Q2-atomic-exit", "no unlock between 'queue empty' and release of the running token; token released exactly once per exit", 2)
 	r.Rule("C06.Q3-execute", "Pop in the same critical section as the head re-check; callback gets the popped value", 2)
-	r.Rule("C06.Q4-close", "Close: wg.Wait on all paths; close(stopCh)+token on the CAS path; loop goroutine tracked and started only with the token", 3)
-	r.Rule("C06.Q5-not-early", "execute only when due within <=500µs or after the timer for that item fired", 2)
-	r.Rule("C06.Q6-enqueue", "Enqueue inserts with replace=true and always calls process(); reset signal when already running", 3)
+	r.Rule("C06.Q4-close", "Close: wg.Wait on all paths; close(stop)+token on the winning path; loop goroutine tracked and started only with the token", 3)
+	r.Rule("C06.Q5-not-early", "an item is run only when due within <=500µs or after the timer for that item fired", 2)
+	r.Rule("C06.Q6-enqueue", "Enqueue inserts with replace=true and always tries to start the loop under the lock; reset signal when already running", 3)
 	r.Rule("C06.Q8-signals", "reset/running tokens are 1-slot channels; every reset received by the loop leads to a fresh Peek before anything is armed or executed", 4)
-	r.Rule("C06.Q7-order", "heap Less = ScheduledTime(i).Before(ScheduledTime(j))", 1)
+	r.Rule("C06.Q7-order", "heap Less = scheduled time ascending", 1)
 
-	q := p.ModPath + "/events/queue"
-	lockID := q + ".Processor.lock"
-	tokenCh := "field:" + q + ".Processor.processorRunningCh"
+	ro := c06Resolve(c)
 	e := c.Locks()
+	fns := p.FuncsOfPkg(ro.rel)
+	held, inc := evHeld(p, e, ro.t, evExportedRoots(fns), ro.lockID)
+	if inc != "" {
+		r.Undecide("Q1: %s", inc)
+	}
+	evGuarded(p, e, r, "C06.Q1-guard", fns, held, []GuardSpec{{Field: ro.queue, Lock: ro.lockID}})
 
-	CheckGuardedBy(p, e, r, "C06.Q1-guard", []GuardSpec{{Field: FieldID{q + ".Processor", "queue"}, Lock: lockID}})
-
-	loop := p.Func("events/queue", "Processor.processLoop")
-	c06AtomicExit(c, loop, lockID, tokenCh)
-	c06Execute(c, lockID)
-	c06Close(c, loop, tokenCh)
-	c06NotEarly(c, loop)
-	c06Enqueue(c, lockID)
-	c06Order(c)
-	c06Signals(c, loop)
+	c06Close(c, ro)
+	c06AtomicExit(c, ro)
+	c06LoopItems(c, ro, true, true)
+	c06Enqueue(c, ro)
+	c06Order(c, ro)
+	c06Signals(c, ro)
 
 	c.Fixture("c06exit", func(fp *Prog, fr *Report) {
-		fe := NewLockEngine(fp)
-		fe.Run()
+		ft := newEvFrames(fp, func(fn *ssa.Function) bool { return fn.Name() != "Peek" })
+		isPeek := func(ci ssa.CallInstruction) bool {
+			f := staticCallee(ci)
+			return f != nil && f.Name() == "Peek"
+		}
 		for _, fn := range fp.Funcs {
-			if fn.Parent() != nil || fn.Name() == "init" || fn.Signature.Recv() == nil {
+			if fn.Parent() != nil || fn.Name() == "init" || fn.Signature.Recv() == nil || !(strings.HasPrefix(fn.Name(), "Good") || strings.HasPrefix(fn.Name(), "Bad")) {
 				continue
 			}
-			fc := &Ctx{P: fp, R: fr, locks: fe}
-			c06AtomicExitNamed(fc, fn, fp.ModPath+".proc.mu", "field:"+fp.ModPath+".proc.running", FuncName(fp, fn)+" atomic-exit", FuncName(fp, fn)+" token-once", "Peek")
+			c06AtomicExitX(fp, fr, ft, []*evFrame{ft.Root(fn)}, fp.ModPath+".proc.mu", "field:"+fp.ModPath+".proc.running", isPeek, FuncName(fp, fn)+" atomic-exit", FuncName(fp, fn)+" token-once")
 		}
 	})
 }
 
-// isTokenRelease: instruction receives from the token channel, or is a
-// deferred closure (replayed at RunDefers) whose body does.
-func c06IsRecvOn(in ssa.Instruction, ch string) bool {
-	switch x := in.(type) {
-	case *ssa.UnOp:
-		return x.Op == token.ARROW && chanIdent(x.X) == ch
-	case *ssa.Defer:
-		if f := staticCallee(x); f != nil {
-			found := false
-			allInstrs(f, func(j ssa.Instruction) {
-				if u, ok := j.(*ssa.UnOp); ok && u.Op == token.ARROW && chanIdent(u.X) == ch {
-					found = true
+// ---------------------------------------------------------------- Q2
+
+type q2State struct {
+	ph   uint8 // 0 neutral | 1 queue seen empty, lock held since | 2 lock released after seeing it empty | 3 token released atomically
+	cnt  uint8 // token releases so far (saturates at 2)
+	held bool
+}
+
+func c06AtomicExit(c *Ctx, ro *c06Roles) {
+	loops := ro.loopFrames(c)
+	if len(loops) == 0 {
+		return
+	}
+	c06AtomicExitX(c.P, c.R, ro.t, loops, ro.lockID, ro.tokenCh, ro.isPeek, "events/queue.Processor loop empty-exit", "events/queue.Processor loop token-once")
+}
+
+// c06AtomicExitX runs the AtomicDecision typestate over the inlined paths of roots.
+func c06AtomicExitX(p *Prog, r *Report, t *evFrames, roots []*evFrame, lockID, tokenCh string, isPeek func(ssa.CallInstruction) bool, construct, construct2 string) {
+	e := NewLockEngine(p) // only for lockOp (identity of lock operations)
+	x := NewEvExplorer[q2State](t)
+	release := func(s q2State) q2State {
+		if s.cnt < 2 {
+			s.cnt++
+		}
+		if s.ph == 1 && s.held {
+			s.ph = 3
+		}
+		return s
+	}
+	x.Instr = func(c *EvCtx[q2State], in ssa.Instruction, s q2State) (q2State, bool) {
+		switch v := in.(type) {
+		case *ssa.UnOp:
+			if v.Op == token.ARROW && chanIdent(c.Resolve(v.X).V) == tokenCh {
+				return release(s), true
+			}
+		case ssa.CallInstruction:
+			if _, isGo := in.(*ssa.Go); isGo {
+				return s, true
+			}
+			if id, kind, ok := e.lockOp(v); ok && id == lockID {
+				switch kind {
+				case opLock, opRLock:
+					s.held = true
+				default:
+					s.held = false
+					if s.ph == 1 {
+						s.ph = 2
+					}
 				}
-			})
-			return found
+				return s, true
+			}
+			if isPeek(v) && s.ph != 3 {
+				s.ph = 0
+			}
+		}
+		return s, true
+	}
+	x.Select = func(c *EvCtx[q2State], sel *ssa.Select, k int, s q2State) (q2State, bool) {
+		if k >= 0 && sel.States[k].Dir == types.RecvOnly && chanIdent(c.Resolve(sel.States[k].Chan).V) == tokenCh {
+			return release(s), true
+		}
+		return s, true
+	}
+	x.Branch = func(c *EvCtx[q2State], ifi *ssa.If, taken bool, s q2State) (q2State, bool) {
+		key, neg := c.CondKey(ifi.Cond)
+		ex, ok := key.V.(*ssa.Extract)
+		if !ok || ex.Index != 1 {
+			return s, true
+		}
+		call, ok := ex.Tuple.(*ssa.Call)
+		if !ok || !isPeek(call) {
+			return s, true
+		}
+		if s.ph == 3 {
+			return s, true
+		}
+		if taken != neg { // non-empty: a fresh observation
+			s.ph = 0
+		} else if s.held {
+			s.ph = 1
+		} else {
+			s.ph = 2
+		}
+		return s, true
+	}
+	bad, badCnt := "", ""
+	nret := 0
+	sawEmptyExit := false
+	for _, root := range roots {
+		for _, ex := range x.Explore(root, q2State{}) {
+			nret++
+			s := ex.P.abs
+			switch s.ph {
+			case 3:
+				sawEmptyExit = true
+			case 2:
+				bad = "the loop returns at " + p.Pos(instrPos(ex.Ret)) + " after observing the queue empty, releasing the lock, and only then giving up the running token: an Enqueue in that window sees a running loop, sends a reset nobody reads, and its item stays queued with no loop serving it"
+			case 1:
+				bad = "the loop returns at " + p.Pos(instrPos(ex.Ret)) + " after observing the queue empty without giving up the running token"
+			}
+			if s.cnt != 1 {
+				badCnt = fmt.Sprintf("exit at %s gives the running token up %s times (must be exactly once: zero wedges every later Enqueue and Close, twice lets two loops run)", p.Pos(instrPos(ex.Ret)), []string{"0", "1", "2 or more"}[s.cnt])
+			}
+		}
+	}
+	if x.Incomplete != "" {
+		r.Undecide("%s: %s", construct, x.Incomplete)
+		return
+	}
+	pos := p.Pos(roots[0].fn.Pos())
+	if nret == 0 {
+		r.Violation(c06Prefix+"Q2-atomic-exit", construct, pos, "the loop goroutine has no exit at all: it never gives up the running token and Close waits forever")
+		return
+	}
+	if bad == "" && !sawEmptyExit {
+		r.Undecide("%s: no exit taken on an empty queue was recognised (the emptiness test is not a branch on the ok result of the queue's peek operation)", construct)
+	} else {
+		r.Check(bad == "", c06Prefix+"Q2-atomic-exit", construct, pos, "queue-empty observation and token release happen in one critical section", bad)
+	}
+	r.Check(badCnt == "", c06Prefix+"Q2-atomic-exit", construct2, pos, "every exit releases the token exactly once", badCnt)
+}
+
+// ---------------------------------------------------------------- Q4 (Close, spawn) and the loop roots
+
+type q4Spawn struct {
+	held  bool
+	token bool // this path took the running token
+	added bool // wg.Add executed
+}
+
+// loopFrames explores Enqueue and Dequeue and returns the frames of the
+// goroutines they start that run the loop (reach the queue's peek operation).
+// It also records the Q4 spawn facts.
+func (ro *c06Roles) loopFrames(c *Ctx) []*evFrame {
+	if ro.loops != nil {
+		return ro.loops
+	}
+	ro.spawn(c, false)
+	return ro.loops
+}
+
+func (ro *c06Roles) spawn(c *Ctx, report bool) {
+	r, p := c.R, c.P
+	e := c.Locks()
+	x := NewEvExplorer[q4Spawn](ro.t)
+	nGo := 0
+	why := ""
+	seenFrame := map[*ssa.Function]bool{}
+	var loops []*evFrame
+	x.Instr = func(cx *EvCtx[q4Spawn], in ssa.Instruction, s q4Spawn) (q4Spawn, bool) {
+		switch v := in.(type) {
+		case *ssa.Send:
+			if chanIdent(cx.Resolve(v.Chan).V) == ro.tokenCh {
+				s.token = true
+			}
+		case *ssa.Go:
+			body := staticCallee(v)
+			if body == nil || !evReachesCall(p, body, ro.isPeek) {
+				return s, true
+			}
+			nGo++
+			if gf := ro.t.GoFrame(cx.F, v); gf != nil && !seenFrame[gf.fn] {
+				// one frame per goroutine body: the mechanism's values are fields of the
+				// receiver, identical from whichever entry point the loop was started
+				seenFrame[gf.fn] = true
+				loops = append(loops, gf)
+			}
+			if !s.added {
+				why = "the loop goroutine is started at " + p.Pos(v.Pos()) + " without a preceding wg.Add: Close may return while a callback is still running"
+			}
+			if !s.token {
+				why = "a loop goroutine can be started at " + p.Pos(v.Pos()) + " without first taking the running token (two loops can pop the same queue / Close cannot wait for it)"
+			}
+		case ssa.CallInstruction:
+			if id, kind, ok := e.lockOp(v); ok && id == ro.lockID {
+				s.held = kind == opLock || kind == opRLock
+				return s, true
+			}
+			if callIs(v, "sync", "WaitGroup", "Add") && wgIdent(v.Common().Args[0]) == ro.wgID {
+				s.added = true
+			}
+		}
+		return s, true
+	}
+	x.Select = func(cx *EvCtx[q4Spawn], sel *ssa.Select, k int, s q4Spawn) (q4Spawn, bool) {
+		if k >= 0 && sel.States[k].Dir == types.SendOnly && chanIdent(cx.Resolve(sel.States[k].Chan).V) == ro.tokenCh {
+			s.token = true
+		}
+		return s, true
+	}
+	x.Explore(ro.t.Root(ro.enq), q4Spawn{})
+	x.Explore(ro.t.Root(ro.deq), q4Spawn{})
+	ro.loops = loops
+	if ro.loops == nil {
+		ro.loops = []*evFrame{}
+	}
+	if !report {
+		return
+	}
+	if x.Incomplete != "" {
+		r.Undecide("Q4 spawn: %s", x.Incomplete)
+		return
+	}
+	construct := "events/queue.Processor loop spawn"
+	if nGo == 0 {
+		evAbsent(r, x.UnknownCalls(ro.isCallback), c06Prefix+"Q4-close", construct, p.Pos(ro.enq.Pos()), "Enqueue no longer starts a loop goroutine on any path (all same-package callees followed)")
+		return
+	}
+	// the goroutine calls wg.Done on every exit
+	type dn struct{ done bool }
+	xd := NewEvExplorer[dn](ro.t)
+	xd.Instr = func(cx *EvCtx[dn], in ssa.Instruction, s dn) (dn, bool) {
+		if ci, ok := in.(ssa.CallInstruction); ok {
+			if _, isGo := in.(*ssa.Go); !isGo && callIs(ci, "sync", "WaitGroup", "Done") && wgIdent(ci.Common().Args[0]) == ro.wgID {
+				s.done = true
+			}
+		}
+		return s, true
+	}
+	for _, lf := range ro.loops {
+		for _, ex := range xd.Explore(lf, dn{}) {
+			if !ex.P.abs.done && why == "" {
+				why = "the loop goroutine can exit at " + p.Pos(instrPos(ex.Ret)) + " without wg.Done: Close waits forever"
+			}
+		}
+	}
+	if xd.Incomplete != "" {
+		r.Undecide("Q4 spawn: %s", xd.Incomplete)
+		return
+	}
+	r.Check(why == "", c06Prefix+"Q4-close", construct, p.Pos(ro.loops[0].fn.Pos()), "loop goroutine started only with the token, tracked by wg", why)
+}
+
+type q4Close struct {
+	waited bool
+	closed bool  // stop channel closed
+	token  bool  // token sent after the close
+	early  bool  // token sent before the stop channel was closed
+	won    uint8 // 0 unknown 1 this call flipped the stopped flag 2 it did not
+}
+
+func c06Close(c *Ctx, ro *c06Roles) {
+	r, p := c.R, c.P
+	x := NewEvExplorer[q4Close](ro.t)
+	onSend := func(s q4Close) q4Close {
+		if s.closed {
+			s.token = true
+		} else {
+			s.early = true
+		}
+		return s
+	}
+	x.Instr = func(cx *EvCtx[q4Close], in ssa.Instruction, s q4Close) (q4Close, bool) {
+		switch v := in.(type) {
+		case *ssa.Send:
+			if chanIdent(cx.Resolve(v.Chan).V) == ro.tokenCh {
+				s = onSend(s)
+			}
+		case *ssa.Go:
+		case ssa.CallInstruction:
+			if callIs(v, "sync", "WaitGroup", "Wait") && wgIdent(v.Common().Args[0]) == ro.wgID {
+				s.waited = true
+			}
+			if builtinName(v) == "close" && chanIdent(cx.Resolve(v.Common().Args[0]).V) == ro.stopCh {
+				s.closed = true
+			}
+		}
+		return s, true
+	}
+	x.Branch = func(cx *EvCtx[q4Close], ifi *ssa.If, taken bool, s q4Close) (q4Close, bool) {
+		key, neg := cx.CondKey(ifi.Cond)
+		if won, ok := evFlagWon(key, taken != neg, ro.stopped); ok {
+			s.won = 2
+			if won {
+				s.won = 1
+			}
+		}
+		return s, true
+	}
+	okWait, n := true, 0
+	whyCAS := ""
+	sawWin := false
+	for _, ex := range x.Explore(ro.t.Root(ro.closeFn), q4Close{}) {
+		n++
+		s := ex.P.abs
+		if !s.waited {
+			okWait = false
+		}
+		if s.won == 1 {
+			sawWin = true
+			if !s.closed {
+				whyCAS = "the call of Close that flips the stopped flag can return without closing the stop channel: the loop is never told to stop"
+			} else if !s.token || s.early {
+				whyCAS = "the call of Close that flips the stopped flag does not take the running token after closing the stop channel: a later Enqueue could start a new loop, and Close does not wait for the running one to end"
+			}
+		} else if s.closed {
+			whyCAS = "the stop channel can be closed by a call of Close that did not win the stopped flag: a second Close panics"
+		}
+	}
+	if x.Incomplete != "" {
+		r.Undecide("Q4 close: %s", x.Incomplete)
+		return
+	}
+	if n == 0 {
+		okWait = false
+	}
+	pos := p.Pos(ro.closeFn.Pos())
+	r.Check(okWait, c06Prefix+"Q4-close", "events/queue.Processor.Close waits", pos, "wg.Wait on every path", "Close can return without waiting for the loop goroutine (a callback may still run after Close returned)")
+	if !sawWin && whyCAS == "" {
+		r.Undecide("events/queue.Processor.Close: no branch on CompareAndSwap(false,true)/Swap(true) of the stopped flag recognised")
+	} else {
+		r.Check(whyCAS == "", c06Prefix+"Q4-close", "events/queue.Processor.Close stop+token", pos, "winner of the stopped flag closes the stop channel and then takes the running token", whyCAS)
+	}
+	ro.spawn(c, true)
+}
+
+// ---------------------------------------------------------------- Q3 + Q5
+
+type q35State struct {
+	held    bool
+	secPeek evVal // (frame, peek call) of the last peek in the current critical section
+	secEq   evVal // item known to be identical to the head in this section
+	secUnk  bool  // a branch in this section tested the head through a call that was not followed
+	due     evVal // item established due
+	dueHow  uint8
+	bigK    bool
+	timeDep bool
+	popSt   uint8 // 0 none | 1 verified+due | 2 head not verified | 3 not due
+	popHow  uint8
+	pop     evVal
+	popItem evVal
+}
+
+// evNormItem: the first result of a call is identified with the call.
+func evNormItem(v evVal) evVal {
+	if ex, ok := v.V.(*ssa.Extract); ok && ex.Index == 0 {
+		if call, ok := ex.Tuple.(*ssa.Call); ok {
+			return evVal{v.F, call}
+		}
+	}
+	return v
+}
+
+func evCalleeName(v ssa.Value) string {
+	if call, ok := v.(*ssa.Call); ok {
+		if obj := calleeObj(call); obj != nil {
+			return obj.Name()
+		}
+	}
+	return ""
+}
+
+// evRecvOf: receiver value of a method call (invoke or static).
+func evRecvOf(call *ssa.Call) ssa.Value {
+	if call.Call.IsInvoke() {
+		return call.Call.Value
+	}
+	if len(call.Call.Args) > 0 {
+		return call.Call.Args[0]
+	}
+	return nil
+}
+
+func evArgsOf(call *ssa.Call) []ssa.Value {
+	if call.Call.IsInvoke() {
+		return call.Call.Args
+	}
+	if len(call.Call.Args) > 0 {
+		return call.Call.Args[1:]
+	}
+	return nil
+}
+
+// c06DeadlineItem: d = item.ScheduledTime().Sub(clock.Now()) → item.
+func c06DeadlineItem(res evResolver, d evVal) (evVal, bool) {
+	sub, ok := d.V.(*ssa.Call)
+	if !ok || !callIs(sub, "time", "Time", "Sub") || len(sub.Call.Args) != 2 {
+		return evVal{}, false
+	}
+	return c06SchedNow(res, d.F, sub.Call.Args[0], sub.Call.Args[1])
+}
+
+// evResolver resolves a value of a frame (path-aware inside explorer hooks).
+type evResolver func(f *evFrame, v ssa.Value) evVal
+
+// c06SchedNow: a is item.ScheduledTime(), b is clock.Now().
+func c06SchedNow(res evResolver, f *evFrame, a, b ssa.Value) (evVal, bool) {
+	sv := res(f, a)
+	st, ok := sv.V.(*ssa.Call)
+	if !ok || evCalleeName(st) != "ScheduledTime" || evRecvOf(st) == nil {
+		return evVal{}, false
+	}
+	nv := res(f, b)
+	if evCalleeName(nv.V) != "Now" {
+		return evVal{}, false
+	}
+	return evNormItem(res(sv.F, evRecvOf(st))), true
+}
+
+// evInvolvesTime: the value is computed from the clock or a scheduled time.
+func evInvolvesTime(res evResolver, v evVal, depth int) bool {
+	if depth > 6 || v.V == nil {
+		return false
+	}
+	v = res(v.F, v.V)
+	switch evCalleeName(v.V) {
+	case "Now", "ScheduledTime", "Until", "Since":
+		return true
+	}
+	if in, ok := v.V.(ssa.Instruction); ok {
+		if _, isPhi := in.(*ssa.Phi); isPhi {
+			return false
+		}
+		for _, op := range in.Operands(nil) {
+			if op != nil && *op != nil && evInvolvesTime(res, evVal{v.F, *op}, depth+1) {
+				return true
+			}
 		}
 	}
 	return false
 }
 
-func c06AtomicExit(c *Ctx, loop *ssa.Function, lockID, tokenCh string) {
-	c06AtomicExitNamed(c, loop, lockID, tokenCh, "events/queue.Processor.processLoop empty-exit", "events/queue.Processor.processLoop token-once", "Peek")
-}
+const c06MaxEarly = 500000 // ns
 
-// c06AtomicExitNamed runs the AtomicDecision typestate:
-//
-//	states: 0 neutral | 1 queue seen empty, lock still held | 2 lock released after seeing it empty (window) | 3 token released atomically
-//
-// and the token count {0,1,2+} in bits 2..3 of the abstract state.
-func c06AtomicExitNamed(c *Ctx, loop *ssa.Function, lockID, tokenCh, construct, construct2, peekName string) {
-	r, p, e := c.R, c.P, c.Locks()
-	enc := func(ph, cnt int) int { return ph | cnt<<2 }
-	ff := &FlagFlow{Fn: loop, Must: false, Entry: 1 << uint(enc(0, 0)),
-		Transfer: func(in ssa.Instruction, st uint64) uint64 {
-			if c06IsRecvOn(in, tokenCh) {
-				held := e.At(in)[lockID] != ModeNone
-				if _, isDefer := in.(*ssa.Defer); isDefer {
-					held = false
-					// replayed at function exit: lockset there
-					allInstrs(loop, func(j ssa.Instruction) {
-						if _, ok := j.(*ssa.RunDefers); ok && e.At(j)[lockID] != ModeNone {
-							held = true
-						}
-					})
-				}
-				return mapStates(st, func(s int) int {
-					ph, cnt := s&3, s>>2
-					if cnt < 2 {
-						cnt++
-					}
-					if ph == 1 && held {
-						ph = 3
-					}
-					return enc(ph, cnt)
-				})
-			}
-			if call, ok := in.(*ssa.Call); ok {
-				if id, kind, ok := e.lockOp(call); ok && id == lockID && (kind == opUnlock || kind == opRUnlock) {
-					return mapStates(st, func(s int) int {
-						ph, cnt := s&3, s>>2
-						if ph == 1 {
-							ph = 2
-						}
-						return enc(ph, cnt)
-					})
-				}
-			}
-			return st
-		},
-		EdgeTransfer: func(from, to *ssa.BasicBlock, st uint64) uint64 {
-			if len(from.Instrs) == 0 || len(from.Succs) != 2 || from.Succs[0] == from.Succs[1] {
-				return st
-			}
-			ifi, ok := from.Instrs[len(from.Instrs)-1].(*ssa.If)
-			if !ok {
-				return st
-			}
-			br := from.Succs[0] == to
-			cond := ifi.Cond
-			if u, ok := cond.(*ssa.UnOp); ok && u.Op == token.NOT {
-				cond, br = u.X, !br
-			}
-			ex, ok := cond.(*ssa.Extract)
-			if !ok || ex.Index != 1 {
-				return st
-			}
-			call, ok := ex.Tuple.(*ssa.Call)
-			if !ok || calleeObj(call) == nil || calleeObj(call).Name() != peekName {
-				return st
-			}
-			if br { // queue non-empty: a fresh observation, neutral
-				return mapStates(st, func(s int) int { return enc(0, s>>2) })
-			}
-			if e.At(ifi)[lockID] != ModeNone {
-				return mapStates(st, func(s int) int { return enc(1, s>>2) })
-			}
-			return mapStates(st, func(s int) int { return enc(2, s>>2) })
-		}}
-	ff.Run()
-	bad, badCnt := "", ""
-	nret := 0
-	sawEmptyExit := false
-	ff.AtReturns(func(ret *ssa.Return, st uint64) {
-		nret++
-		for s := 0; s < 16; s++ {
-			if st&(1<<uint(s)) == 0 {
-				continue
-			}
-			ph, cnt := s&3, s>>2
-			if ph == 3 {
-				sawEmptyExit = true
-			}
-			if ph == 2 {
-				bad = "processLoop returns at " + p.Pos(ret.Pos()) + " after observing the queue empty, releasing the lock, and only then giving up the running token: an Enqueue in that window sees a running loop, sends a reset nobody reads, and its item stays queued with no loop serving it"
-			}
-			if ph == 1 {
-				bad = "processLoop returns at " + p.Pos(ret.Pos()) + " after observing the queue empty without giving up the running token"
-			}
-			if cnt != 1 {
-				badCnt = fmt.Sprintf("return at %s gives the running token up %s times (must be exactly once: zero wedges every later Enqueue and Close, twice lets two loops run)", p.Pos(ret.Pos()), []string{"0", "1", "2 or more"}[cnt])
-			}
-		}
-	})
-	if nret == 0 {
-		bad = "no return found"
-	}
-	if bad == "" && !sawEmptyExit {
-		bad = "no exit taken on an empty queue found (loop never ends, or the emptiness test is not recognisable as Peek()'s ok result)"
-	}
-	r.Check(bad == "", c06Prefix+"Q2-atomic-exit", construct, p.Pos(loop.Pos()), "queue-empty observation and token release happen in one critical section", bad)
-	r.Check(badCnt == "", c06Prefix+"Q2-atomic-exit", construct2, p.Pos(loop.Pos()), "every return releases the token exactly once", badCnt)
-}
-
-func c06Execute(c *Ctx, lockID string) {
-	r, p, e := c.R, c.P, c.Locks()
-	fn := p.Func("events/queue", "Processor.execute")
-	var peek, pop *ssa.Call
-	var execCalls []*ssa.Call
-	allInstrs(fn, func(in ssa.Instruction) {
-		call, ok := in.(*ssa.Call)
-		if !ok {
-			return
-		}
-		if obj := calleeObj(call); obj != nil && !call.Call.IsInvoke() {
-			switch obj.Name() {
-			case "Peek":
-				peek = call
-			case "Pop":
-				pop = call
-			}
-		}
-		if id, _, ok := fieldOfValue(call.Call.Value); ok && id.Field == "executeFn" {
-			execCalls = append(execCalls, call)
-		}
-	})
-	construct := "events/queue.Processor.execute pop"
-	if pop == nil {
-		r.Violation(c06Prefix+"Q3-execute", construct, p.Pos(fn.Pos()), "execute no longer pops the item it runs (item would run again)")
+// c06LoopItems explores the loop goroutine and decides Q3 (pop in the critical
+// section that re-checked the head; callback gets the popped value) and Q5
+// (what is popped was established due).
+func c06LoopItems(c *Ctx, ro *c06Roles, q3, q5 bool) {
+	r, p := c.R, c.P
+	loops := ro.loopFrames(c)
+	if len(loops) == 0 {
 		return
 	}
-	why := ""
-	if peek == nil {
-		why = "execute pops without re-checking under the lock that the head is still the item the loop peeked (a Dequeue/replace between the loop's peek and the pop makes a different, possibly not-due, item run)"
-	} else {
-		sec := sectionIndex(e, fn, lockID)
-		if sec[peek] != sec[pop] || sec[pop] != 1<<1 || e.At(pop)[lockID] == ModeNone || e.At(peek)[lockID] == ModeNone {
-			why = "the head re-check (Peek) and the Pop are not in one critical section"
-		}
-		// pop dominated by edge peek==r
-		var rparam ssa.Value
-		if len(fn.Params) >= 2 {
-			rparam = fn.Params[1]
-		}
-		eq := false
-		pv := callResult(peek, 0)
-		for _, dc := range domConds(pop.Block()) {
-			if cmp, ok := decodeCond(dc.If.Cond, dc.Branch); ok && cmp.Op == token.EQL {
-				if (cmp.X == pv && cmp.Y == rparam) || (cmp.Y == pv && cmp.X == rparam) {
-					eq = true
-				}
-			}
-		}
-		if !eq && why == "" {
-			why = "Pop is not guarded by 'head == the item passed in'"
-		}
+	e := c.Locks()
+	t := ro.t
+	x := NewEvExplorer[q35State](t)
+	var violPop, violCb, violDue, undec string
+	sawPop, sawCb := false, false
+	var bigKVal int64
+	how := map[uint8]bool{}
+	clearSec := func(s q35State) q35State {
+		s.secPeek, s.secEq, s.secUnk = evVal{}, evVal{}, false
+		return s
 	}
-	r.Check(why == "", c06Prefix+"Q3-execute", construct, p.Pos(pop.Pos()), "Pop happens in the critical section that verified head == peeked item", why)
-	okArg := len(execCalls) > 0
-	for _, ec := range execCalls {
-		if len(ec.Call.Args) != 1 || ec.Call.Args[0] != callResult(pop, 0) {
-			okArg = false
-		}
-		if !instrDominates(pop, ec) {
-			okArg = false
-		}
-		if e.At(ec)[lockID] != ModeNone {
-			r.Note("C06: executeFn is invoked with Processor.lock held (callbacks that Enqueue would deadlock) — not part of the statement")
-		}
-	}
-	r.Check(okArg, c06Prefix+"Q3-execute", "events/queue.Processor.execute callback", p.Pos(fn.Pos()), "executeFn receives exactly the popped value, after the pop", "executeFn is not called with the value popped from the queue (or is called before/without the pop)")
-}
-
-func c06Close(c *Ctx, loop *ssa.Function, tokenCh string) {
-	r, p := c.R, c.P
-	fn := p.Func("events/queue", "Processor.Close")
-	q := p.ModPath + "/events/queue"
-	stopCh := "field:" + q + ".Processor.stopCh"
-	// wg.Wait on all paths
-	const (
-		fWait = 1 << iota
-		fClosed
-		fToken
-	)
-	ff := &FlagFlow{Fn: fn, Must: true, Transfer: func(in ssa.Instruction, st uint64) uint64 {
-		if ci, ok := in.(ssa.CallInstruction); ok {
-			if callIs(ci, "sync", "WaitGroup", "Wait") {
-				return st | fWait
-			}
-			if builtinName(ci) == "close" && chanIdent(ci.Common().Args[0]) == stopCh {
-				return st | fClosed
-			}
-		}
-		if s, ok := in.(*ssa.Send); ok && chanIdent(s.Chan) == tokenCh {
-			return st | fToken
-		}
-		return st
-	}}
-	ff.Run()
-	okWait := true
-	ff.AtReturns(func(ret *ssa.Return, st uint64) {
-		if st&fWait == 0 {
-			okWait = false
-		}
-	})
-	r.Check(okWait, c06Prefix+"Q4-close", "events/queue.Processor.Close waits", p.Pos(fn.Pos()), "wg.Wait on every path", "Close can return without waiting for the loop goroutine (a callback may still run after Close returned)")
-	// CAS path
-	okCAS := false
-	allInstrs(fn, func(in ssa.Instruction) {
-		s, ok := in.(*ssa.Send)
-		if !ok || chanIdent(s.Chan) != tokenCh {
-			return
-		}
-		st, _ := ff.Before(s)
-		casEdge := false
-		for _, dc := range domConds(s.Block()) {
-			if call, val, ok := boolCallCond(dc.If.Cond, dc.Branch); ok && val && calleeObj(call) != nil && calleeObj(call).Name() == "CompareAndSwap" {
-				casEdge = true
-			}
-		}
-		if st&fClosed != 0 && casEdge {
-			okCAS = true
-		}
-	})
-	r.Check(okCAS, c06Prefix+"Q4-close", "events/queue.Processor.Close stop+token", p.Pos(fn.Pos()), "winner of the stopped CAS closes stopCh and then takes the running token", "Close no longer closes stopCh before taking the running token on the CAS-success path (it would not stop the loop, or not wait for it)")
-	// spawn in process(): go dominated by send-case edge on token; wg.Add before; goroutine defers Done and calls processLoop
-	proc := p.Func("events/queue", "Processor.process")
-	okSpawn, n := true, 0
-	why := ""
-	allInstrs(proc, func(in ssa.Instruction) {
-		g, ok := in.(*ssa.Go)
+	x.Instr = func(cx *EvCtx[q35State], in ssa.Instruction, s q35State) (q35State, bool) {
+		ci, ok := in.(ssa.CallInstruction)
 		if !ok {
-			return
+			return s, true
 		}
-		n++
-		body := staticCallee(g)
-		callsLoop, defersDone := false, false
-		if body != nil {
-			allInstrs(body, func(j ssa.Instruction) {
-				if cj, ok := j.(*ssa.Call); ok && staticCallee(cj) == loop {
-					callsLoop = true
-				}
-				if dj, ok := j.(*ssa.Defer); ok && callIs(dj, "sync", "WaitGroup", "Done") {
-					defersDone = true
-				}
-			})
+		if _, isGo := in.(*ssa.Go); isGo {
+			return s, true
 		}
-		if body == loop {
-			callsLoop = true
+		if id, kind, ok := e.lockOp(ci); ok && id == ro.lockID {
+			s.held = kind == opLock || kind == opRLock
+			return clearSec(s), true
 		}
-		// wg.Add(1) dominates go
-		added := false
-		allInstrs(proc, func(j ssa.Instruction) {
-			if cj, ok := j.(*ssa.Call); ok && callIs(cj, "sync", "WaitGroup", "Add") && instrDominates(cj, g) {
-				added = true
+		call, _ := in.(*ssa.Call)
+		switch ro.op(ci) {
+		case "peek":
+			if call == nil {
+				return clearSec(s), true
 			}
-		})
-		// token taken: go dominated by select send case on tokenCh
-		tokenTaken := false
-		allInstrs(proc, func(j ssa.Instruction) {
-			if sel, ok := j.(*ssa.Select); ok {
-				si := decodeSelect(sel)
-				for _, cs := range si.Cases {
-					if cs.Dir == types.SendOnly && cs.Chan == tokenCh && cs.Body != nil && cs.Body.Dominates(g.Block()) && (si.Default == nil || !si.Default.Dominates(g.Block())) {
-						tokenTaken = true
+			me := evVal{cx.F, call}
+			if s.due == me {
+				s.due, s.dueHow = evVal{}, 0
+			}
+			s = clearSec(s)
+			if s.held {
+				s.secPeek = me
+			}
+			return s, true
+		case "insert", "remove", "update":
+			return clearSec(s), true
+		case "pop":
+			sawPop = true
+			verified := s.held && !s.secPeek.IsZero()
+			switch {
+			case !verified:
+				s.popSt = 2
+				if violPop == "" {
+					if s.held {
+						violPop = "the item is popped at " + p.Pos(instrPos(in)) + " without re-checking under the lock that the head is still the item the loop decided on (a Dequeue/replace between the loop's peek and the pop makes a different, possibly not-due, item run)"
+					} else {
+						violPop = "the item is popped at " + p.Pos(instrPos(in)) + " without holding the lock"
+					}
+				}
+			case !s.due.IsZero() && (s.due == s.secPeek || s.due == s.secEq):
+				s.popSt, s.popHow, s.popItem = 1, s.dueHow, s.due
+			case !s.due.IsZero() && s.secUnk:
+				s.popSt = 2
+				if undec == "" {
+					undec = "the pop at " + p.Pos(instrPos(in)) + " follows a test of the head made through a call that could not be followed: whether it establishes 'head is the very item found due' is not decided"
+				}
+			case !s.due.IsZero():
+				// the head was peeked in this section but never found identical to the due item
+				s.popSt = 2
+				if violPop == "" {
+					violPop = "the pop at " + p.Pos(instrPos(in)) + " is not guarded by 'head is the very item that was found due' (object identity) in the same critical section: after a replace or an earlier Enqueue a different item, possibly not due, is popped and run"
+				}
+			default:
+				s.popSt = 3
+			}
+			if call != nil {
+				s.pop = evVal{cx.F, call}
+			}
+			return clearSec(s), true
+		}
+		// the callback
+		if call != nil && !call.Call.IsInvoke() {
+			if id, _, ok := fieldOfValue(cx.Resolve(call.Call.Value).V); ok && id == ro.execFn {
+				sawCb = true
+				argOK := false
+				if len(call.Call.Args) == 1 {
+					a := evNormItem(cx.Resolve(call.Call.Args[0]))
+					argOK = !s.pop.IsZero() && (a == s.pop || (s.popSt == 1 && a == s.popItem))
+				}
+				switch {
+				case s.popSt == 0:
+					if violCb == "" {
+						violCb = "the callback is invoked at " + p.Pos(instrPos(in)) + " on a path that did not pop the item (it stays queued and runs again)"
+					}
+				case !argOK:
+					if violCb == "" {
+						violCb = "the callback at " + p.Pos(instrPos(in)) + " is not called with the value popped from the queue"
+					}
+				case s.popSt == 3:
+					switch {
+					case s.bigK:
+						violDue = fmt.Sprintf("the run-now threshold is %d ns: items run up to that long before their scheduled time (allowed: 0.5 ms)", bigKVal)
+					case s.timeDep:
+						undec = "the callback at " + p.Pos(instrPos(in)) + " is reached after a time-dependent test that is not one of the recognised forms (ScheduledTime().Sub(clock.Now()) < K, or the timer armed with that duration)"
+					default:
+						violDue = "the callback at " + p.Pos(instrPos(in)) + " is reached without the item being due: neither on a 'ScheduledTime().Sub(clock.Now()) < K (K<=500µs)' branch nor after the timer armed for it fired"
+					}
+				case s.popSt == 1:
+					how[s.popHow] = true
+				}
+				s.popSt, s.pop, s.popItem, s.popHow = 0, evVal{}, evVal{}, 0
+			}
+		}
+		return s, true
+	}
+	x.Branch = func(cx *EvCtx[q35State], ifi *ssa.If, taken bool, s q35State) (q35State, bool) {
+		key, neg := cx.CondKey(ifi.Cond)
+		val := taken != neg
+		res := evResolver(cx.ResolveIn)
+		setDue := func(item evVal, k int64) q35State {
+			if k <= c06MaxEarly {
+				s.due, s.dueHow = item, 1
+			} else {
+				s.bigK, bigKVal = true, k
+			}
+			return s
+		}
+		switch kv := key.V.(type) {
+		case *ssa.BinOp:
+			op := kv.Op
+			if !val {
+				op = negateOp(op)
+			}
+			X, Y := res(key.F, kv.X), res(key.F, kv.Y)
+			switch op {
+			case token.EQL:
+				if s.held && !s.secPeek.IsZero() {
+					if evNormItem(X) == s.secPeek {
+						s.secEq = evNormItem(Y)
+					} else if evNormItem(Y) == s.secPeek {
+						s.secEq = evNormItem(X)
+					}
+				}
+			case token.LSS, token.LEQ, token.GTR, token.GEQ:
+				d, k := X, Y
+				if op == token.GTR || op == token.GEQ {
+					d, k = Y, X
+				}
+				if kc, ok := k.V.(*ssa.Const); ok && kc.Value != nil {
+					if item, ok := c06DeadlineItem(res, d); ok {
+						return setDue(item, kc.Int64()), true
 					}
 				}
 			}
-			if s, ok := j.(*ssa.Send); ok && chanIdent(s.Chan) == tokenCh && instrDominates(s, g) {
-				tokenTaken = true
+			if evInvolvesTime(res, key, 0) {
+				s.timeDep = true
 			}
-		})
-		if !callsLoop {
-			return
+		case *ssa.Call:
+			// an opaque predicate over the head of this section
+			if s.held && !s.secPeek.IsZero() {
+				for _, a := range kv.Call.Args {
+					if evNormItem(res(key.F, a)) == s.secPeek {
+						s.secUnk = true
+					}
+				}
+			}
+			// sched.Before(now.Add(K)), now.Add(K).After(sched), !sched.After(now.Add(K)), !now.Add(K).Before(sched)
+			name := evCalleeName(kv)
+			if (name == "Before" || name == "After") && callIs(kv, "time", "Time", name) && len(kv.Call.Args) == 2 {
+				// lo, hi: on this edge lo is before (or at) hi
+				lo, hi := kv.Call.Args[0], kv.Call.Args[1]
+				if (name == "After") == val {
+					lo, hi = hi, lo
+				}
+				hv := res(key.F, hi)
+				if add, ok := hv.V.(*ssa.Call); ok && callIs(add, "time", "Time", "Add") && len(add.Call.Args) == 2 {
+					if kc, ok := res(hv.F, add.Call.Args[1]).V.(*ssa.Const); ok && kc.Value != nil {
+						sv := res(key.F, lo)
+						if st, ok := sv.V.(*ssa.Call); ok && evCalleeName(st) == "ScheduledTime" && evRecvOf(st) != nil && evCalleeName(res(hv.F, add.Call.Args[0]).V) == "Now" {
+							return setDue(evNormItem(res(sv.F, evRecvOf(st))), kc.Int64()), true
+						}
+					}
+				}
+			}
+			if evInvolvesTime(res, key, 0) {
+				s.timeDep = true
+			}
 		}
-		if !added || !defersDone {
-			okSpawn, why = false, "loop goroutine is not tracked in wg (Add before go, deferred Done): Close may return while a callback is still running"
-		}
-		if !tokenTaken {
-			okSpawn, why = false, "a loop goroutine can be started without first taking the running token (two loops can pop the same queue / Close cannot wait for it)"
-		}
-	})
-	if n == 0 {
-		okSpawn, why = false, "process() no longer starts the loop goroutine"
+		return s, true
 	}
-	r.Check(okSpawn, c06Prefix+"Q4-close", "events/queue.Processor.process spawn", p.Pos(proc.Pos()), "loop goroutine started only with the token, tracked by wg", why)
+	x.Select = func(cx *EvCtx[q35State], sel *ssa.Select, k int, s q35State) (q35State, bool) {
+		if k < 0 || sel.States[k].Dir != types.RecvOnly {
+			return s, true
+		}
+		res := evResolver(cx.ResolveIn)
+		ch := cx.Resolve(sel.States[k].Chan)
+		chCall, ok := ch.V.(*ssa.Call)
+		if !ok {
+			return s, true
+		}
+		var dur evVal
+		switch evCalleeName(chCall) {
+		case "C":
+			tm := res(ch.F, evRecvOf(chCall))
+			if nt, ok := tm.V.(*ssa.Call); ok && evCalleeName(nt) == "NewTimer" && len(evArgsOf(nt)) == 1 {
+				dur = res(tm.F, evArgsOf(nt)[0])
+			}
+		case "After":
+			if len(evArgsOf(chCall)) == 1 {
+				dur = res(ch.F, evArgsOf(chCall)[0])
+			}
+		default:
+			return s, true
+		}
+		if !dur.IsZero() {
+			if item, ok := c06DeadlineItem(res, dur); ok {
+				s.due, s.dueHow = item, 2
+				return s, true
+			}
+		}
+		s.timeDep = true
+		return s, true
+	}
+	for _, lf := range loops {
+		x.Explore(lf, q35State{})
+	}
+	if x.Incomplete != "" {
+		r.Undecide("Q3/Q5: %s", x.Incomplete)
+		return
+	}
+	pos := p.Pos(loops[0].fn.Pos())
+	if q3 {
+		if !sawPop {
+			evAbsent(r, x.UnknownCalls(ro.isCallback), c06Prefix+"Q3-execute", "events/queue.Processor loop pop", pos, "the loop goroutine no longer pops the item it runs (all same-package callees followed): the item would run again")
+		} else {
+			r.Check(violPop == "", c06Prefix+"Q3-execute", "events/queue.Processor loop pop", pos, "Pop happens in the critical section that verified head == the item decided on", violPop)
+		}
+		if !sawCb {
+			evAbsent(r, x.UnknownCalls(ro.isCallback), c06Prefix+"Q3-execute", "events/queue.Processor loop callback", pos, "the loop goroutine never invokes the callback (all same-package callees followed)")
+		} else {
+			r.Check(violCb == "", c06Prefix+"Q3-execute", "events/queue.Processor loop callback", pos, "the callback receives exactly the popped value, after the pop", violCb)
+		}
+	}
+	if q5 {
+		names := map[uint8]string{1: "events/queue.Processor loop runs item due by threshold", 2: "events/queue.Processor loop runs item whose timer fired"}
+		for _, k := range []uint8{1, 2} {
+			if how[k] {
+				r.OK(c06Prefix+"Q5-not-early", names[k], pos, "item executed only when due (threshold <= 500µs or its own timer fired)")
+			}
+		}
+		if violDue != "" {
+			r.Violation(c06Prefix+"Q5-not-early", "events/queue.Processor loop runs item not due", pos, violDue)
+		} else if undec != "" {
+			r.Undecide("Q5: %s", undec)
+		}
+	}
 }
 
-func c06NotEarly(c *Ctx, loop *ssa.Function) {
+// c06Execute / c06NotEarly: entry points used by C10.
+func c06Execute(c *Ctx, ro *c06Roles)  { c06LoopItems(c, ro, true, false) }
+func c06NotEarly(c *Ctx, ro *c06Roles) { c06LoopItems(c, ro, false, true) }
+
+// ---------------------------------------------------------------- Q6
+
+type q6State struct {
+	held      bool
+	inserted  bool
+	attempted bool  // tried to take the token under the lock after the insert
+	acq       uint8 // 0 no attempt | 1 token taken | 2 token not available | 3 attempted, outcome not branched on
+	reset     bool  // reset signal posted after finding the token unavailable
+}
+
+func c06Enqueue(c *Ctx, ro *c06Roles) {
 	r, p := c.R, c.P
-	exec := p.Func("events/queue", "Processor.execute")
-	n := 0
-	allInstrs(loop, func(in ssa.Instruction) {
-		call, ok := in.(*ssa.Call)
-		if !ok || staticCallee(call) != exec {
-			return
-		}
-		n++
-		item := call.Call.Args[1]
-		ok2, why := false, "execute is reached without the item being due: neither on a 'scheduledTime.Sub(clock.Now()) < K (K<=500µs)' branch nor after the timer armed for it fired"
-		for _, dc := range domConds(call.Block()) {
-			// (a) deadline < K
-			if cmp, okc := decodeCond(dc.If.Cond, dc.Branch); okc && (cmp.Op == token.LSS || cmp.Op == token.LEQ) {
-				if k, isK := cmp.Y.(*ssa.Const); isK && k.Value != nil {
-					if sub, isSub := cmp.X.(*ssa.Call); isSub && c06IsDeadlineOf(sub, item) {
-						if k.Int64() <= 500000 {
-							ok2 = true
-						} else {
-							why = fmt.Sprintf("the run-now threshold is %d ns: items run up to that long before their scheduled time (allowed: 0.5 ms)", k.Int64())
-						}
-					}
-				}
-			}
-		}
-		// (b) select case on timer C() of NewTimer(deadline of item)
-		if si, ks := selectEdgeFor(call.Block()); si != nil {
-			for _, k := range ks {
-				cs := si.Cases[k]
-				if cs.Dir == types.RecvOnly {
-					if cc, okc := cs.ChanV.(*ssa.Call); okc && calleeObj(cc) != nil && calleeObj(cc).Name() == "C" {
-						if nt, okn := cc.Call.Value.(*ssa.Call); okn && calleeObj(nt) != nil && calleeObj(nt).Name() == "NewTimer" {
-							if sub, oks := nt.Call.Args[0].(*ssa.Call); oks && c06IsDeadlineOf(sub, item) {
-								ok2 = true
-							}
-						}
-					}
-				}
-			}
-		}
-		r.Check(ok2, c06Prefix+"Q5-not-early", fmt.Sprintf("events/queue.Processor.processLoop execute#%d", n), p.Pos(call.Pos()), "item executed only when due (threshold <= 500µs or its own timer fired)", why)
-	})
-	if n == 0 {
-		r.Violation(c06Prefix+"Q5-not-early", "events/queue.Processor.processLoop execute#1", p.Pos(loop.Pos()), "processLoop never executes items")
-	}
-}
-
-// selectEdgeFor: block b is (dominated by) the body of select case k.
-func selectEdgeFor(b *ssa.BasicBlock) (*SelectInfo, []int) {
-	for s := b; s != nil; s = s.Idom() {
-		if len(s.Preds) == 1 {
-			if si, ks := selectEdgeCases(s.Preds[0], s); si != nil {
-				return si, ks
-			}
-		}
-	}
-	return nil, nil
-}
-
-// c06IsDeadlineOf: sub = item.ScheduledTime().Sub(clock.Now())
-func c06IsDeadlineOf(sub *ssa.Call, item ssa.Value) bool {
-	if !callIs(sub, "time", "Time", "Sub") || len(sub.Call.Args) != 2 {
-		return false
-	}
-	st, ok := sub.Call.Args[0].(*ssa.Call)
-	if !ok || calleeObj(st) == nil || calleeObj(st).Name() != "ScheduledTime" || st.Call.Value != item {
-		return false
-	}
-	now, ok := sub.Call.Args[1].(*ssa.Call)
-	return ok && calleeObj(now) != nil && calleeObj(now).Name() == "Now"
-}
-
-func c06Enqueue(c *Ctx, lockID string) {
-	r, p, e := c.R, c.P, c.Locks()
-	enq := p.Func("events/queue", "Processor.Enqueue")
-	proc := p.Func("events/queue", "Processor.process")
-	q := p.ModPath + "/events/queue"
-	// replace=true
+	e := c.Locks()
+	x := NewEvExplorer[q6State](ro.t)
+	replaceBad, replaceUnk := "", ""
 	nIns := 0
-	allInstrs(enq, func(in ssa.Instruction) {
-		call, ok := in.(*ssa.Call)
-		if !ok || calleeObj(call) == nil || calleeObj(call).Name() != "Insert" || call.Call.IsInvoke() {
-			return
+	sawBusy := false
+	attempt := func(s q6State, got bool) q6State {
+		if s.inserted && s.held {
+			s.attempted = true
 		}
-		nIns++
-		args := call.Call.Args
-		k, isK := args[len(args)-1].(*ssa.Const)
-		r.Check(isK && k.Value != nil && k.Value.String() == "true", c06Prefix+"Q6-enqueue", "events/queue.Processor.Enqueue insert", p.Pos(call.Pos()), "Insert(r, replace=true)", "Enqueue does not replace an existing item with the same key: the superseded value would still be executed and the new one dropped")
-	})
-	if nIns == 0 {
-		r.Violation(c06Prefix+"Q6-enqueue", "events/queue.Processor.Enqueue insert", p.Pos(enq.Pos()), "Enqueue no longer inserts into the queue")
+		s.acq = 2
+		if got {
+			s.acq = 1
+		}
+		return s
 	}
-	// process() on every path after the insert (must), under the lock
-	ff := &FlagFlow{Fn: enq, Must: true, Transfer: func(in ssa.Instruction, st uint64) uint64 {
-		if call, ok := in.(*ssa.Call); ok {
-			if calleeObj(call) != nil && calleeObj(call).Name() == "Insert" {
-				return st | 1
-			}
-			if staticCallee(call) == proc && st&1 != 0 && e.At(call)[lockID] != ModeNone {
-				return st | 2
-			}
-		}
-		return st
-	}}
-	ff.Run()
-	okP := true
-	ff.AtReturns(func(ret *ssa.Return, st uint64) {
-		if st&1 != 0 && st&2 == 0 {
-			okP = false
-		}
-	})
-	r.Check(okP, c06Prefix+"Q6-enqueue", "events/queue.Processor.Enqueue process", p.Pos(enq.Pos()), "every path that inserted calls process() under the lock", "a path through Enqueue inserts an item without calling process() under the lock: no loop is started or poked for it")
-	// reset signal: in process(), on default path under isNext, a send on resetCh
-	resetCh := "field:" + q + ".Processor.resetCh"
-	okReset := false
-	allInstrs(proc, func(in ssa.Instruction) {
-		sel, ok := in.(*ssa.Select)
-		if !ok {
-			return
-		}
-		si := decodeSelect(sel)
-		for _, cs := range si.Cases {
-			if cs.Dir == types.SendOnly && cs.Chan == resetCh {
-				// dominated by isNext == true
-				for _, dc := range domConds(sel.Block()) {
-					if dc.If.Cond == proc.Params[1] && dc.Branch {
-						okReset = true
-					}
+	selHas := func(cx *EvCtx[q6State], sel *ssa.Select) (hasTok, hasReset bool) {
+		for _, st := range sel.States {
+			if st.Dir == types.SendOnly {
+				switch chanIdent(cx.Resolve(st.Chan).V) {
+				case ro.tokenCh:
+					hasTok = true
+				case ro.resetCh:
+					hasReset = true
 				}
 			}
 		}
-	})
-	r.Check(okReset, c06Prefix+"Q6-enqueue", "events/queue.Processor.process reset", p.Pos(proc.Pos()), "head change is signalled to a running loop", "process(isNext=true) no longer signals a running loop that the head changed: an earlier item waits for the previous head's timer")
+		return
+	}
+	x.Instr = func(cx *EvCtx[q6State], in ssa.Instruction, s q6State) (q6State, bool) {
+		switch v := in.(type) {
+		case *ssa.Send:
+			switch chanIdent(cx.Resolve(v.Chan).V) {
+			case ro.tokenCh:
+				s = attempt(s, true)
+			case ro.resetCh:
+				if s.acq == 2 && s.held {
+					s.reset = true
+				}
+			}
+		case *ssa.Select:
+			// (a select whose arms are all empty has no edges: the attempt is the event)
+			hasTok, hasReset := selHas(cx, v)
+			if hasTok {
+				if s.inserted && s.held {
+					s.attempted = true
+				}
+				s.acq = 3
+			}
+			if hasReset && s.acq == 2 && s.held {
+				s.reset = true
+			}
+		case *ssa.Go:
+		case ssa.CallInstruction:
+			if id, kind, ok := e.lockOp(v); ok && id == ro.lockID {
+				s.held = kind == opLock || kind == opRLock
+				return s, true
+			}
+			if ro.op(v) == "insert" {
+				nIns++
+				args := v.Common().Args
+				if len(args) > 0 && evConstBool(cx.Resolve(args[len(args)-1]).V) < 0 {
+					replaceUnk = "the replace argument of the insert at " + p.Pos(instrPos(in)) + " is not a constant"
+				} else if len(args) == 0 || evConstBool(cx.Resolve(args[len(args)-1]).V) != 1 {
+					replaceBad = "Enqueue does not replace an existing item with the same key (insert at " + p.Pos(instrPos(in)) + "): the superseded value would still be executed and the new one dropped"
+				}
+				s.inserted, s.attempted, s.acq, s.reset = true, false, 0, false
+			}
+		}
+		return s, true
+	}
+	x.Select = func(cx *EvCtx[q6State], sel *ssa.Select, k int, s q6State) (q6State, bool) {
+		if hasTok, _ := selHas(cx, sel); hasTok {
+			got := k >= 0 && sel.States[k].Dir == types.SendOnly && chanIdent(cx.Resolve(sel.States[k].Chan).V) == ro.tokenCh
+			s = attempt(s, got)
+		}
+		return s, true
+	}
+	okP, sawIns, okReset := true, false, false
+	for _, ex := range x.Explore(ro.t.Root(ro.enq), q6State{}) {
+		s := ex.P.abs
+		if s.inserted {
+			sawIns = true
+			if !s.attempted {
+				okP = false
+			}
+			if s.acq == 2 {
+				sawBusy = true
+				if s.reset {
+					okReset = true
+				}
+			}
+		}
+	}
+	if x.Incomplete != "" {
+		r.Undecide("Q6: %s", x.Incomplete)
+		return
+	}
+	pos := p.Pos(ro.enq.Pos())
+	if !sawIns || nIns == 0 {
+		evAbsent(r, x.UnknownCalls(ro.isCallback), c06Prefix+"Q6-enqueue", "events/queue.Processor.Enqueue insert", pos, "Enqueue no longer inserts into the queue on any path (all same-package callees followed)")
+	} else if replaceBad == "" && replaceUnk != "" {
+		r.Undecide("Q6: %s", replaceUnk)
+	} else {
+		r.Check(replaceBad == "", c06Prefix+"Q6-enqueue", "events/queue.Processor.Enqueue insert", pos, "insert(item, replace=true)", replaceBad)
+	}
+	r.Check(okP, c06Prefix+"Q6-enqueue", "events/queue.Processor.Enqueue process", pos, "every path that inserted tries to take the running token (start the loop) under the lock", "a path through Enqueue inserts an item without then trying to take the running token under the lock: no loop is started or poked for it")
+	if !okReset && !sawBusy && okP {
+		r.Undecide("Q6: the outcome of Enqueue's attempt to take the running token is never branched on in a recognised form (select default / boolean or constant result of a helper): whether a reset is posted when the loop is already running is not decided")
+		return
+	}
+	r.Check(okReset, c06Prefix+"Q6-enqueue", "events/queue.Processor.Enqueue reset", pos, "head change is signalled to a running loop", "Enqueue has no path on which, finding the loop already running, it posts the reset signal under the lock: an earlier item waits for the previous head's timer")
 }
 
-func c06Order(c *Ctx) {
+// ---------------------------------------------------------------- Q7
+
+func c06Order(c *Ctx, ro *c06Roles) {
 	r, p := c.R, c.P
-	less := p.Func("events/queue", "queueHeap.Less")
-	ok := false
+	var less *ssa.Function
+	for _, fn := range p.FuncsOfPkg(ro.rel) {
+		if fn.Name() != "Less" || fn.Signature.Recv() == nil || fn.Parent() != nil {
+			continue
+		}
+		// the type handed to container/heap: it also has Push and Pop
+		ms := p.SSA.MethodSets.MethodSet(types.NewPointer(deref(fn.Signature.Recv().Type())))
+		if ms.Lookup(fn.Pkg.Pkg, "Push") != nil && ms.Lookup(fn.Pkg.Pkg, "Pop") != nil && ms.Lookup(fn.Pkg.Pkg, "Swap") != nil {
+			if less != nil {
+				undecided("two heap.Interface implementations in events/queue")
+			}
+			less = fn
+		}
+	}
+	if less == nil {
+		undecided("no heap.Interface implementation (Less/Swap/Push/Pop) found in events/queue")
+	}
+	root := ro.t.Root(less)
+	rel, n := 0, 0
+	unknown := false
 	allInstrs(less, func(in ssa.Instruction) {
-		call, isCall := in.(*ssa.Call)
-		if !isCall || !callIs(call, "time", "Time", "Before") {
+		ret, ok := in.(*ssa.Return)
+		if !ok || len(ret.Results) != 1 || in.Block() == less.Recover {
 			return
 		}
-		a, b := c06IndexParam(call.Call.Args[0], less), c06IndexParam(call.Call.Args[1], less)
-		if a == 1 && b == 2 {
-			// and the result is returned un-negated
-			for _, rr := range refs(call) {
-				if _, isRet := rr.(*ssa.Return); isRet {
-					ok = true
-				}
-			}
+		n++
+		s := c06LessRel(ro.t, root, ret.Results[0], less, 0)
+		switch {
+		case s == 0:
+			unknown = true
+		case rel == 0:
+			rel = s
+		case rel != s:
+			unknown = true
 		}
 	})
-	r.Check(ok, c06Prefix+"Q7-order", "events/queue.queueHeap.Less", p.Pos(less.Pos()), "min-heap on ScheduledTime", "Less is no longer 'item i is scheduled before item j': the head of the queue is not the earliest item and callbacks run out of scheduled-time order")
+	construct := "events/queue heap Less"
+	switch {
+	case n == 0 || unknown || rel == 0:
+		r.Undecide("%s: the comparison returned by %s is not one of the recognised forms (Before/After/Compare/Sub/Unix* of the two items' ScheduledTime())", construct, FuncName(p, less))
+	default:
+		r.Check(rel > 0, c06Prefix+"Q7-order", construct, p.Pos(less.Pos()), "min-heap on ScheduledTime", "Less is no longer 'item i is scheduled before item j': the head of the queue is not the earliest item and callbacks run out of scheduled-time order")
+	}
+}
+
+// c06LessRel: +1 if v true means time(i) <(=) time(j), -1 if it means the
+// opposite, 0 if not recognised.
+func c06LessRel(t *evFrames, f *evFrame, v ssa.Value, fn *ssa.Function, depth int) int {
+	if depth > 8 {
+		return 0
+	}
+	rv := t.Resolve(f, v)
+	idx := func(x ssa.Value) int { return c06IndexParam(t.Resolve(rv.F, x).V, fn) }
+	sign := func(a, b ssa.Value) int {
+		ia, ib := idx(a), idx(b)
+		if ia == 1 && ib == 2 {
+			return 1
+		}
+		if ia == 2 && ib == 1 {
+			return -1
+		}
+		return 0
+	}
+	switch x := rv.V.(type) {
+	case *ssa.UnOp:
+		if x.Op == token.NOT {
+			return -c06LessRel(t, rv.F, x.X, fn, depth+1)
+		}
+	case *ssa.Call:
+		if len(x.Call.Args) == 2 && callIs(x, "time", "Time", "Before") {
+			return sign(x.Call.Args[0], x.Call.Args[1])
+		}
+		if len(x.Call.Args) == 2 && callIs(x, "time", "Time", "After") {
+			return -sign(x.Call.Args[0], x.Call.Args[1])
+		}
+	case *ssa.BinOp:
+		dir := 0
+		switch x.Op {
+		case token.LSS, token.LEQ:
+			dir = 1
+		case token.GTR, token.GEQ:
+			dir = -1
+		default:
+			return 0
+		}
+		X, Y := t.Resolve(rv.F, x.X), t.Resolve(rv.F, x.Y)
+		num := func(v evVal) (a, b ssa.Value, kind int) {
+			call, ok := v.V.(*ssa.Call)
+			if !ok {
+				return nil, nil, 0
+			}
+			switch {
+			case len(call.Call.Args) == 2 && (callIs(call, "time", "Time", "Compare") || callIs(call, "time", "Time", "Sub")):
+				return call.Call.Args[0], call.Call.Args[1], 2
+			case len(call.Call.Args) == 1 && strings.HasPrefix(evCalleeName(call), "Unix") && callIs(call, "time", "Time", evCalleeName(call)):
+				return call.Call.Args[0], nil, 1
+			}
+			return nil, nil, 0
+		}
+		isZero := func(v evVal) bool {
+			k, ok := v.V.(*ssa.Const)
+			return ok && k.Value != nil && k.Value.Kind() == constant.Int && k.Int64() == 0
+		}
+		ax, bx, kx := num(X)
+		ay, _, ky := num(Y)
+		switch {
+		case kx == 2 && isZero(Y):
+			return dir * sign(ax, bx)
+		case ky == 2 && isZero(X):
+			a, b, _ := num(Y)
+			return -dir * sign(a, b)
+		case kx == 1 && ky == 1:
+			return dir * sign(ax, ay)
+		}
+	}
+	return 0
 }
 
 // c06IndexParam: v = pq[param k].value.ScheduledTime() → k (index into fn.Params), else -1.
 func c06IndexParam(v ssa.Value, fn *ssa.Function) int {
-	for depth := 0; depth < 10 && v != nil; depth++ {
+	for depth := 0; depth < 12 && v != nil; depth++ {
 		switch x := v.(type) {
 		case *ssa.Call:
 			if x.Call.IsInvoke() {
@@ -549,6 +1291,10 @@ func c06IndexParam(v ssa.Value, fn *ssa.Function) int {
 		case *ssa.FieldAddr:
 			v = x.X
 		case *ssa.Field:
+			v = x.X
+		case *ssa.MakeInterface:
+			v = x.X
+		case *ssa.ChangeType:
 			v = x.X
 		case *ssa.IndexAddr:
 			for i, pa := range fn.Params {
@@ -571,100 +1317,171 @@ func c06IndexParam(v ssa.Value, fn *ssa.Function) int {
 	return -1
 }
 
+// ---------------------------------------------------------------- Q8
+
+type q8State struct {
+	pending uint8 // 0 | 1 reset received in a non-blocking select | 2 in a blocking select / plain receive
+}
+
 // c06Signals: channel capacities of the token channels, and the handling of a
 // received reset signal.
-func c06Signals(c *Ctx, loop *ssa.Function) {
+func c06Signals(c *Ctx, ro *c06Roles) {
 	r, p := c.R, c.P
-	q := p.ModPath + "/events/queue"
-	want := map[string]int64{"resetCh": 1, "processorRunningCh": 1, "stopCh": 0}
+	want := map[string]int64{ro.resetCh: 1, ro.tokenCh: 1, ro.stopCh: 0}
+	role := map[string]string{ro.resetCh: "reset-signal", ro.tokenCh: "running-token", ro.stopCh: "stop"}
+	msg := map[string]string{
+		ro.resetCh: "the reset signal is posted without blocking while the poster holds the lock; with no slot to park it, a reset posted while the loop is between its Peek and its select is dropped and an earlier item waits for the previous head's timer (with more than one slot stale resets accumulate)",
+		ro.tokenCh: "the running token must be a 1-slot channel: 0 blocks the first Enqueue forever, 2 lets two loops pop the same queue",
+		ro.stopCh:  "the stop channel is a close-only signal",
+	}
 	seen := map[string]bool{}
-	for _, fn := range p.FuncsOfPkg("events/queue") {
+	for _, fn := range p.FuncsOfPkg(ro.rel) {
 		allInstrs(fn, func(in ssa.Instruction) {
 			st, ok := in.(*ssa.Store)
 			if !ok {
 				return
 			}
 			fa, ok := st.Addr.(*ssa.FieldAddr)
-			if !ok || fieldIDOfAddr(fa).Type != q+".Processor" {
+			if !ok || fieldIDOfAddr(fa).Type != ro.procT {
 				return
 			}
-			f := fieldIDOfAddr(fa).Field
-			capWant, tracked := want[f]
+			id := "field:" + ro.procT + "." + fieldIDOfAddr(fa).Field
+			capWant, tracked := want[id]
 			if !tracked {
 				return
 			}
-			seen[f] = true
-			mc, isMake := st.Val.(*ssa.MakeChan)
-			okCap := false
-			if isMake {
-				if k, ok := mc.Size.(*ssa.Const); ok && k.Value != nil && k.Int64() == capWant {
-					okCap = true
-				}
+			seen[id] = true
+			val := ro.t.Resolve(ro.t.Root(fn), st.Val).V
+			mc, isMake := val.(*ssa.MakeChan)
+			if !isMake {
+				r.Undecide("%s stores a channel that is not a fresh make(chan) into the %s channel of queue.Processor", FuncName(p, fn), role[id])
+				return
 			}
-			msg := map[string]string{
-				"resetCh":            "the reset signal is posted without blocking while the poster holds the lock; with no slot to park it, a reset posted while the loop is between its Peek and its select is dropped and an earlier item waits for the previous head's timer (with more than one slot stale resets accumulate)",
-				"processorRunningCh": "the running token must be a 1-slot channel: 0 blocks the first Enqueue forever, 2 lets two loops pop the same queue",
-				"stopCh":             "stopCh is a close-only signal",
-			}[f]
-			r.Check(okCap, c06Prefix+"Q8-signals", FuncName(p, fn)+" makes Processor."+f, p.Pos(st.Pos()), fmt.Sprintf("capacity %d", capWant), msg)
+			k, isK := mc.Size.(*ssa.Const)
+			if !isK || k.Value == nil {
+				r.Undecide("%s makes the %s channel of queue.Processor with a non-constant capacity", FuncName(p, fn), role[id])
+				return
+			}
+			r.Check(k.Int64() == capWant, c06Prefix+"Q8-signals", FuncName(p, fn)+" makes the "+role[id]+" channel", p.Pos(st.Pos()), fmt.Sprintf("capacity %d", capWant), msg[id])
 		})
 	}
-	for f := range want {
-		if !seen[f] {
-			r.Undecide("no initialisation of queue.Processor.%s found", f)
+	var ids []string
+	for id := range want {
+		ids = append(ids, id)
+	}
+	sort.Strings(ids)
+	for _, id := range ids {
+		if !seen[id] {
+			r.Undecide("no initialisation of the %s channel of queue.Processor found", role[id])
 		}
 	}
-	// reset handling: from the body of every receive case on resetCh the loop reaches the Peek
-	// again before it arms a timer or executes anything
-	resetCh := "field:" + q + ".Processor.resetCh"
-	var peekBlk *ssa.BasicBlock
-	danger := map[*ssa.BasicBlock]string{}
-	allInstrs(loop, func(in ssa.Instruction) {
-		call, ok := in.(*ssa.Call)
-		if !ok {
-			return
+	// reset handling
+	loops := ro.loopFrames(c)
+	if len(loops) == 0 {
+		return
+	}
+	x := NewEvExplorer[q8State](ro.t)
+	viol := map[uint8]string{}
+	// the waits of the loop that listen for the reset signal, by kind
+	kinds := map[uint8]token.Pos{}
+	noReset := ""
+	hit := func(s q8State, what string, in ssa.Instruction) {
+		if s.pending != 0 && viol[s.pending] == "" {
+			viol[s.pending] = "after receiving a reset signal the loop can reach " + what + " (at " + p.Pos(instrPos(in)) + ") without peeking the queue again: it goes on with the old head although an earlier item was enqueued, which then runs late"
 		}
-		if obj := calleeObj(call); obj != nil {
-			switch obj.Name() {
-			case "Peek":
-				if !call.Call.IsInvoke() {
-					peekBlk = call.Block()
+	}
+	x.Instr = func(cx *EvCtx[q8State], in ssa.Instruction, s q8State) (q8State, bool) {
+		switch v := in.(type) {
+		case *ssa.UnOp:
+			if v.Op == token.ARROW && chanIdent(cx.Resolve(v.X).V) == ro.resetCh {
+				s.pending = 2
+				kinds[2] = instrPos(in)
+			}
+		case *ssa.Select:
+			hasReset, hasTimer := false, false
+			for _, st := range v.States {
+				if st.Dir != types.RecvOnly {
+					continue
 				}
-			case "NewTimer", "execute", "ScheduledTime":
-				danger[call.Block()] = obj.Name()
+				id := chanIdent(cx.Resolve(st.Chan).V)
+				if id == ro.resetCh {
+					hasReset = true
+				}
+				if strings.HasPrefix(id, "timer:") || strings.HasPrefix(id, "call:After") {
+					hasTimer = true
+				}
 			}
-		}
-	})
-	n := 0
-	allInstrs(loop, func(in ssa.Instruction) {
-		sel, ok := in.(*ssa.Select)
-		if !ok {
-			return
-		}
-		si := decodeSelect(sel)
-		for _, cs := range si.Cases {
-			if cs.Dir != types.RecvOnly || cs.Chan != resetCh || cs.Body == nil {
-				continue
+			if hasReset {
+				k := uint8(1)
+				if v.Blocking {
+					k = 2
+				}
+				if _, ok := kinds[k]; !ok {
+					kinds[k] = instrPos(in)
+				}
 			}
-			n++
-			bad := ""
-			if peekBlk == nil {
-				bad = "the loop no longer peeks the queue"
-			} else if cs.Body != peekBlk {
-				for blk := range reachableFrom(cs.Body, map[*ssa.BasicBlock]bool{peekBlk: true}) {
-					if what, ok := danger[blk]; ok {
-						bad = "after receiving a reset signal the loop can reach " + what + " (at " + p.Pos(instrPos(blk.Instrs[0])) + ") without peeking the queue again: it goes on with the old head although an earlier item was enqueued, which then runs late"
+			if hasTimer && v.Blocking && !hasReset {
+				noReset = "the loop waits for the item's timer at " + p.Pos(instrPos(in)) + " without listening for the reset signal: an earlier item enqueued meanwhile waits for the previous head's timer"
+			}
+		case *ssa.Go:
+		case ssa.CallInstruction:
+			switch ro.op(v) {
+			case "peek":
+				s.pending = 0
+				return s, true
+			case "pop":
+				hit(s, "the pop", in)
+				return s, true
+			}
+			if call, ok := in.(*ssa.Call); ok {
+				switch evCalleeName(call) {
+				case "NewTimer", "After", "AfterFunc":
+					if obj := calleeObj(call); obj != nil && obj.Pkg() != nil && strings.HasSuffix(obj.Pkg().Path(), "clock") {
+						hit(s, "arming a timer", in)
+					}
+				}
+				if !call.Call.IsInvoke() {
+					if id, _, ok := fieldOfValue(cx.Resolve(call.Call.Value).V); ok && id == ro.execFn {
+						hit(s, "the callback", in)
 					}
 				}
 			}
-			kind := "non-blocking"
-			if sel.Blocking {
-				kind = "blocking"
-			}
-			r.Check(bad == "", c06Prefix+"Q8-signals", fmt.Sprintf("events/queue.Processor.processLoop reset case (%s select)", kind), p.Pos(instrPos(sel)), "a received reset restarts the loop at Peek", bad)
 		}
-	})
-	if n < 2 {
-		r.Violation(c06Prefix+"Q8-signals", "events/queue.Processor.processLoop reset case", p.Pos(loop.Pos()), "the loop must listen for the reset signal both before arming the timer and while waiting on it; a missing case leaves an earlier item waiting for the previous head's timer")
+		return s, true
+	}
+	x.Select = func(cx *EvCtx[q8State], sel *ssa.Select, k int, s q8State) (q8State, bool) {
+		if k >= 0 && sel.States[k].Dir == types.RecvOnly && chanIdent(cx.Resolve(sel.States[k].Chan).V) == ro.resetCh {
+			s.pending = 1
+			if sel.Blocking {
+				s.pending = 2
+			}
+		}
+		return s, true
+	}
+	for _, lf := range loops {
+		x.Explore(lf, q8State{})
+	}
+	if x.Incomplete != "" {
+		r.Undecide("Q8: %s", x.Incomplete)
+		return
+	}
+	pos := p.Pos(loops[0].fn.Pos())
+	if len(kinds) == 0 {
+		evAbsent(r, x.UnknownCalls(ro.isCallback), c06Prefix+"Q8-signals", "events/queue.Processor loop reset case", pos, "the loop goroutine never receives the reset signal (all same-package callees followed): an earlier item waits for the previous head's timer")
+		return
+	}
+	for _, k := range []uint8{1, 2} {
+		at, ok := kinds[k]
+		if !ok {
+			continue
+		}
+		kind := "non-blocking"
+		if k == 2 {
+			kind = "blocking"
+		}
+		r.Check(viol[k] == "", c06Prefix+"Q8-signals", fmt.Sprintf("events/queue.Processor loop reset case (%s select)", kind), p.Pos(at), "a received reset restarts the loop at Peek", viol[k])
+	}
+	if noReset != "" {
+		r.Violation(c06Prefix+"Q8-signals", "events/queue.Processor loop timer wait", pos, noReset)
 	}
 }
